@@ -56,4 +56,9 @@ def setitemGraph (x upd : TG) (rank : Nat) (index : List NIx) : TG :=
 def setitemMaskGraph (x m upd : TG) (rank rankM : Nat) : TG :=
   scatterWith x (maskGraph (ndindexGraph x rank) m rankM) upd
 
+/-- `x[idx]` / `take(x, idx)` along axis 0 with an integer index array of ONNX element type `code`: `Gather(axis=0)`; an
+index that is neither int32 nor int64 is cast to int64 first (ONNX `Gather` accepts only those two). -/
+def intIndexGraph (x idx : TG) (code : Nat) : TG :=
+  .gather 0 x (if code = 6 ∨ code = 7 then idx else .cast 7 idx)
+
 end Ndx.TGraph
